@@ -57,7 +57,13 @@ func (p *TriggerPool) Start(ctx context.Context) context.Context {
 	// context.Done() and context.Err() for context that can be cancelled use a Lock.
 	// To avoid frequent locking - use an atomic.Bool for cancellation instead of checking the
 	// context on each iteration
+	//
+	// stop() records the pending jobs as dropped iterations, so the pool is only complete
+	// once it has returned.
+	p.manager.runningWorkers.Add(1)
 	go func() {
+		defer p.manager.runningWorkers.Done()
+
 		<-workerCtx.Done()
 		p.stop()
 	}()
